@@ -196,3 +196,49 @@ Proof.
       rewrite (usum_ext _ _ (fun u => dsel d (ac_value (nth u ups acc_empty)) - dsel d (ac_value (nth u (rw_up w) acc_empty)))) by (intros u _; apply G).
       lia.
 Qed.
+
+(* ---------- the accrual stage on the amounts owed ---------- *)
+Definition NU : nat := n_uptimes.
+Definition OwedI (d : bool) (w : rwd) (cur : Z) (P : list position) : Z := usum NU (fun u => zsum (owedU u d w cur) P).
+(* every listed position has a record in each uptime accumulator, with shares = liquidity *)
+Definition RMU (w : rwd) (P : list position) : Prop :=
+  forall u p, (u < NU)%nat -> In p P -> exists r, acc_get (acc_u u w) (ps_id p) = Some r /\ ar_shares r = ps_liq p.
+Lemma RMU_shares : forall w P u p, RMU w P -> (u < NU)%nat -> In p P -> sharesU u w p = ps_liq p.
+Proof. intros w P u p H Hu Hp. destruct (H u p Hu Hp) as [r [R S]]. unfold sharesU. rewrite R. exact S. Qed.
+
+Lemma sum_liq_zsum' : forall c P, sum_liq (f_range c) P = zsum (fun p => if in_rng (ps_lower p) (ps_upper p) c then ps_liq p else 0) P.
+Proof. induction P as [|p P IH]; simpl; [reflexivity|]. rewrite IH. unfold wt, f_range, in_rng. reflexivity. Qed.
+
+(* a stage that grows the uptime accumulators at a fixed tick without touching trackers or records *)
+Lemma stage_grow_U : forall cur w w' P d, rw_tt w' = rw_tt w -> PT w P -> RMU w P ->
+  (forall u j, acc_get (acc_u u w') j = acc_get (acc_u u w) j) ->
+  OwedI d w' cur P = OwedI d w cur P + usum NU (fun u => sel_G (CU u d) w' - sel_G (CU u d) w) * sum_liq (f_range cur) P /\
+  PT w' P /\ RMU w' P.
+Proof.
+  intros cur w w' P d TT HPT HRM RG. split; [|split].
+  - unfold OwedI. rewrite (Z.mul_comm (usum NU _) (sum_liq (f_range cur) P)), <- usum_scale, <- usum_plus. apply usum_ext. intros u Hu.
+    rewrite (Z.mul_comm (sum_liq (f_range cur) P)), sum_liq_zsum', <- zsum_scale, <- zsum_plus. apply zsum_ext. intros p Hp.
+    destruct (HPT p Hp) as [Hlu TK].
+    destruct (SE_inside_gen (CU u d) cur [] w w' _ _ (SE_same_tt (CU u d) cur _ _ TT) Hlu TK ltac:(simpl; tauto) ltac:(simpl; tauto)) as [I _].
+    rewrite (owedU_frame u d w w' cur cur p _ (RG u _) I), (RMU_shares w P u p HRM Hu Hp).
+    destruct (in_rng _ _ _); lia.
+  - intros p Hp. destruct (HPT p Hp) as [Hlu [A [B C]]]. split; [exact Hlu|]. unfold tks. rewrite TT. auto.
+  - intros u p Hu Hp. rewrite RG. apply HRM; assumption.
+Qed.
+
+Lemma stage_accrue : forall cur w liq now w' P d, update_uptime w liq now = Some w' -> recs_ok (rw_recs w) -> 0 < rw_inc_scaling w ->
+  length (rw_up w) = NU -> PT w P -> RMU w P -> liq = sum_liq (f_range cur) P ->
+  OwedI d w' cur P + remD d (rw_recs w') * rw_inc_scaling w <= OwedI d w cur P + remD d (rw_recs w) * rw_inc_scaling w /\
+  PT w' P /\ RMU w' P /\ recs_ok (rw_recs w') /\ rw_tt w' = rw_tt w /\ rw_spread w' = rw_spread w /\
+  rw_inc_scaling w' = rw_inc_scaling w /\ length (rw_up w') = NU /\ rw_next_inc w' = rw_next_inc w /\
+  (forall u j, acc_get (acc_u u w') j = acc_get (acc_u u w) j).
+Proof.
+  intros cur w liq now w' P d H OK Hi LN HPT HRM HL.
+  destruct (update_uptime_spec _ _ _ _ d H OK Hi) as [TT [SP [IS [LU [PW [SM [OK' NI]]]]]]].
+  assert (RG : forall u j, acc_get (acc_u u w') j = acc_get (acc_u u w) j).
+  { intros u j. unfold acc_get. destruct (PW u) as [A _]. rewrite A. reflexivity. }
+  destruct (stage_grow_U cur w w' P d TT HPT HRM RG) as [OW [PT' RM']].
+  rewrite LN in SM. rewrite OW, <- HL.
+  split; [lia|]. split; [exact PT'|]. split; [exact RM'|]. split; [exact OK'|]. split; [exact TT|]. split; [exact SP|].
+  split; [exact IS|]. split; [rewrite LU; exact LN|]. split; [exact NI|exact RG].
+Qed.
